@@ -568,6 +568,13 @@ mod scalar {
     use ::glam_scalar as glam;
     include!("suite.rs");
 }
+/// scalar-math with `glam-assert`: the second pass for the scalar copies (a quarter of the volume)
+#[cfg(not(feature = "core"))]
+mod scalar_asserting {
+    pub const VARIANT: &str = "scalar+glam-assert";
+    use ::glam_scalar_assert as glam;
+    include!("suite.rs");
+}
 /// the same algebra with `glam-assert` compiled in: the only documented precondition is det != 0, so every invertible
 /// matrix (either orientation, any determinant size) must still invert; a panic is reported as a failure
 #[cfg(not(feature = "core"))]
@@ -592,6 +599,7 @@ fn main() {
         subs.extend(scalar::subs(&args));
         // only the sub-checks that never call inverse() on a singular matrix
         subs.extend(asserting::subs(&args).into_iter().filter(|s| s.name.starts_with("real/") || s.name.starts_with("exhaustive")));
+        subs.extend(scalar_asserting::subs(&args).into_iter().filter(|s| s.name.starts_with("real/") || s.name.starts_with("exhaustive")).map(|s| s.with_div(4)));
     }
     #[cfg(feature = "core")]
     {
